@@ -155,6 +155,9 @@ impl Property for C10 {
     fn enumeration_exhaustive(_tier: Tier) -> Option<String> {
         Some("every Unicode scalar value as string content, as array element and inside an object key (64 per case)".into())
     }
+    fn concurrent() -> bool {
+        true
+    }
     fn check(spec: &Spec, _env: &mut Env) -> Outcome {
         let mut o = Outcome::new();
         let v = &spec.value;
